@@ -1,3 +1,4 @@
+import AslModel.Model.Drehe
 /-!
 # Listing / MAP / share renderers — MODEL (C19)
 
@@ -10,6 +11,8 @@ Transcription of
   `SumLen + SystemListLen + 1 < LISTLINESPACE`), padding + source on the first line, continuation
   lines with 9 blanks, `DontPrint`, `Retracted`,
 * `asmlist.c asmlist_init` (`SystemListLen8`),
+* `asmlist.c MakeList` for any `Granularity()` / `ActListGran` and `asmcode.c WriteBytes`' byte order (`makeListW`,
+  `fileBytes`; section "`MakeList` for general (Granularity, ListGran)" below),
 * `asmdebug.c DumpDebugInfo_MAP` entry `"%5s:%s "` with `HexString(…, 8)`, and the insertion
   search of `AddLineInfo`,
 * `asmallg.c IntLine` and the three output lines of `CodeSHARED` for integer symbols.
@@ -109,6 +112,126 @@ def outer (i : ListIn) (w : Nat) : Nat → Bool → Nat → List UInt8 → List 
 /-- `MakeList` (code branch, `ListLine` empty, line numbers on) -/
 def makeList (i : ListIn) : List (List Char) :=
   outer i (systemListLen8 i.widthRadix) (i.code.length + 1) true i.listPC i.code
+
+/-! ## `MakeList` for general (Granularity, ListGran)
+
+Transcription of `asmlist.c MakeList` (code branch) with `Gran = Granularity()` and `ActListGran` as
+parameters, of `asmlist_init` (`SystemListLen16/32`) and of what `asmcode.c WriteBytes` puts into the
+code file for the same line (`DreheCodes` when `TurnWords`, little-endian host).
+
+State of the dump loop: `Index` is represented by the not yet listed rest `d` of
+`BAsmCode[0 .. EffLen)` (`Index < EffLen` ⇔ `d ≠ []`; in word mode `Index` is a multiple of
+`CurrListGran`, so `WAsmCode[Index >> 1]` / `DAsmCode[Index >> 2]` is the host view of the first
+2 / 4 bytes of `d`), `EffLen = CodeLen * Gran = code.length` (a `Word`: the model equals the C code
+for `EffLen + 4 < 65536`).
+-/
+
+/-- `asmlist_init`: `SystemListLen16 = strlen(SysString(0xffff, ListRadixBase, 0))` -/
+def systemListLen16 (widthRadix : Nat) : Nat := (sysString widthRadix 0 0xffff).length
+
+/-- `asmlist_init`: `SystemListLen32 = strlen(SysString(0xffffffff, ListRadixBase, 0))` -/
+def systemListLen32 (widthRadix : Nat) : Nat := (sysString widthRadix 0 0xffffffff).length
+
+/-- `switch (CurrListGran) { case 4: …32; case 2: …16; default: …8 }` -/
+def sysLen (widthRadix cg : Nat) : Nat :=
+  if cg = 4 then systemListLen32 widthRadix
+  else if cg = 2 then systemListLen16 widthRadix
+  else systemListLen8 widthRadix
+
+/-- value of a byte sequence in the host's (little endian) view of the code buffer overlay -/
+def leVal : List UInt8 → Nat
+  | [] => 0
+  | b :: t => b.toNat + 256 * leVal t
+
+/-- `ThisWord`: `DAsmCode[Index >> 2]`, `WAsmCode[Index >> 1]` or `BAsmCode[Index]` -/
+def thisWord (cg : Nat) (d : List UInt8) : Nat :=
+  if cg = 4 then leVal (d.take 4) else if cg = 2 then leVal (d.take 2) else leVal (d.take 1)
+
+/-- inputs of `MakeList` for one source line -/
+structure ListInW where
+  incDepth : Nat
+  currLine : Nat
+  /-- `EProgCounter() - CodeLen` -/
+  listPC : Nat
+  retracted : Bool := false
+  dontPrint : Bool := false
+  widthRadix : Nat := 16
+  numRadix : Nat := 16
+  /-- `Granularity()` -/
+  gran : Nat
+  /-- `ActListGran` -/
+  listGran : Nat
+  turnWords : Bool
+  /-- `BAsmCode[0 .. EffLen)` as `MakeList` finds it (host byte order) -/
+  code : List UInt8
+  src : List Char
+
+/-- loop variables `ListPC`, `Index` (as rest), `CurrListGran`, `SystemListLen` -/
+structure StW where
+  pc : Nat
+  d : List UInt8
+  cg : Nat
+  sl : Nat
+
+/-- one cell: `"%0*.*x "` of `ThisWord`, or `SystemListLen + 1` blanks -/
+def cellW (numR : Nat) (dp : Bool) (s : StW) : List Char :=
+  if s.d ≠ [] ∧ !dp then sysString numR s.sl (thisWord s.cg s.d) ++ [' ']
+  else List.replicate (s.sl + 1) ' '
+
+/-- `ListPC += (Gran == CurrListGran) ? 1 : CurrListGran; Index += CurrListGran;
+if (Index + CurrListGran > EffLen) { CurrListGran = 1; SystemListLen = SystemListLen8; }` -/
+def stepW (w8 g : Nat) (s : StW) : StW :=
+  let d' := s.d.drop s.cg
+  let pc' := s.pc + (if g = s.cg then 1 else s.cg)
+  if d'.length < s.cg then ⟨pc', d', 1, w8⟩ else ⟨pc', d', s.cg, s.sl⟩
+
+/-- result of the inner `do … while (SumLen + SystemListLen + 1 < LISTLINESPACE)` -/
+structure InnerW where
+  text : List Char
+  st : StW
+  sum : Nat
+
+def innerW (numR w8 g : Nat) (dp : Bool) : Nat → Nat → StW → InnerW
+  | 0, sum, s => ⟨[], s, sum⟩
+  | f + 1, sum, s =>
+    let c := cellW numR dp s
+    let sum' := sum + (s.sl + 1)
+    let s' := stepW w8 g s
+    if sum' + s'.sl + 1 < LISTLINESPACE then
+      let r := innerW numR w8 g dp f sum' s'
+      ⟨c ++ r.text, r.st, r.sum⟩
+    else ⟨c, s', sum'⟩
+
+/-- outer `do … while ((Index < EffLen) && !DontPrint)` -/
+def outerW (i : ListInW) (w8 : Nat) : Nat → Bool → StW → List (List Char)
+  | 0, _, _ => []
+  | f + 1, first, s =>
+    let pre := (if first then firstPrefix i.incDepth i.currLine else List.replicate 9 ' ')
+      ++ addrField i.numRadix s.pc i.retracted
+    let r := innerW i.numRadix w8 i.gran i.dontPrint LISTLINESPACE 0 s
+    let line := pre ++ r.text ++
+      (if first then List.replicate (LISTLINESPACE - r.sum) ' ' ++ i.src else [])
+    if r.st.d ≠ [] ∧ !i.dontPrint then line :: outerW i w8 f false r.st
+    else [line]
+
+/-- the buffer as the dump loop sees it: `if (TurnWords && (Gran != ActListGran) && (1 == ActListGran)) DreheCodes();` -/
+def listView (i : ListInW) : List UInt8 :=
+  if i.turnWords ∧ i.gran ≠ i.listGran ∧ i.listGran = 1 then Drehe.dreheCodes i.listGran i.code.length i.code
+  else i.code
+
+/-- `if (EffLen < ActListGran) { CurrListGran = 1; … } else { CurrListGran = ActListGran; switch … }` -/
+def startW (i : ListInW) : StW :=
+  if i.code.length < i.listGran then ⟨i.listPC, listView i, 1, systemListLen8 i.widthRadix⟩
+  else ⟨i.listPC, listView i, i.listGran, sysLen i.widthRadix i.listGran⟩
+
+/-- `MakeList` (code branch, `ListLine` empty, line numbers on) for any `Gran` / `ActListGran` -/
+def makeListW (i : ListInW) : List (List Char) :=
+  outerW i (systemListLen8 i.widthRadix) (i.code.length + 1) true (startW i)
+
+/-- `WriteBytes` on a little-endian host: `if (TurnWords) DreheCodes(); memcpy(…, BAsmCode, ErgLen)` –
+the bytes the code file receives for the line, in address order -/
+def fileBytes (turnWords : Bool) (listGran : Nat) (code : List UInt8) : List UInt8 :=
+  if turnWords then Drehe.dreheCodes listGran code.length code else code
 
 /-! ## MAP -/
 
